@@ -64,10 +64,10 @@ def main(argv):
     coqchk = None
     if tier == "thorough" and not broken and os.environ.get("VERIF_NO_COQCHK") != "1":
         modname = "OdeVerif." + mod.PROPS_FILE[len("theories/"):-2].replace("/", ".")
-        rc, out = C.sh("timeout 1500 coqchk -silent -o -Q theories OdeVerif %s 2>&1 | tail -n 40" % modname, cwd=C.COQ, timeout=1600)
+        rc_chk, out = C.sh("timeout 1500 coqchk -silent -o -Q theories OdeVerif %s" % modname, cwd=C.COQ, timeout=1600)
         coqchk = out[-3000:]
-        if "Modules were successfully checked" not in out:
-            broken.append("coqchk failed: " + out[-300:])
+        if rc_chk != 0:
+            broken.append("coqchk failed (rc=%s): %s" % (rc_chk, out[-300:]))
 
     # 2./3. correspondence + probes
     try:
